@@ -375,6 +375,10 @@ def c05_runs(cases, tier, rng):
                     r.update(flavour)
                     if r.get("collide"):
                         r["trace"] = False   # link failures are outside CompileExec.tla (Symbols.tla covers them)
+                        for rep_ in range(4):   # repeat: the collision verdict must not depend on link overlap
+                            r2 = dict(r); r2["id"] = rid; r2["seed"] = s + 7 * rep_; rid += 1
+                            runs.append(r2)
+                        continue
                     runs.append(r)
                     rid += 1
     return runs
